@@ -44,13 +44,13 @@ def run(ctx):
     for i in res["bad"][:10]:
         ctx.violation({"call": rs[i], "why": "a request failing a check was served, had an effect, or data was sent"})
     # sanity of the harness: the fully valid request does reach the handler
-    okc = [r for r in rs if r["scenario"] == "ok"]
+    okc = [r for r in rs if r["base"] == "ok" and r["method"] != "GetProxyRelay"]
     ctx.tie(all(r["effects"] for r in okc))
     ctx.cov.update({
         "programs": len({r["method"] for r in rs}),
         "evaluations": len(rs),
-        "distinct_nontrivial": len({(r["method"], r["scenario"]) for r in rs if r["scenario"] != "ok"}),
-        "rule": "6 RPCs x 8 scenarios (7 failing exactly one check + ok); non-trivial = failing scenario; distinct by (method, scenario)",
+        "distinct_nontrivial": len({(r["method"], r["scenario"]) for r in rs if r["base"] != "ok"}),
+        "rule": "6 RPCs x 15 scenarios (a served request first, then requests failing exactly one check, each also with TTL 1 / without meta header); non-trivial = failing scenario; distinct by (method, scenario)",
         "status_histogram": dict(collections.Counter("%s:%d" % (r["scenario"], r["code"]) for r in rs)),
         "samples": rs[:2] + rs[-1:],
         "exhaustive": True,
